@@ -18,7 +18,7 @@ Do(op) == \E r \in Steps(st, op, Devs) :
 
 \* one named action per public call, so that -coverage shows which were exercised
 Open        == \E op \in {o \in Ops(st) : o.k = "open"} : Do(op)
-Execute     == \E op \in {o \in Ops(st) : o.k \in {"exec", "dml"}} : Do(op)
+Execute     == \E op \in {o \in Ops(st) : o.k \in {"exec", "dml", "reshape"}} : Do(op)
 ExecuteFail == \E op \in {o \in Ops(st) : o.k = "execfail"} : Do(op)
 FetchOne    == \E op \in {o \in Ops(st) : o.k = "one"} : Do(op)
 FetchMany   == \E op \in {o \in Ops(st) : o.k = "many"} : Do(op)
@@ -49,6 +49,8 @@ Drained == (st.open /\ st.idx = st.n) =>
 NoResult == (st.cur # "none" /\ ~st.open) =>
               \A op \in {o \in Ops(st) : o.k \in {"one", "many", "manydef", "all", "pandas"}} :
                  \A r \in Steps(st, op, Devs) : r.obs.res = "noresult" /\ r.post = st
+\* description names the columns of the result the cursor holds
+DescrOfResult == \A op \in {o \in Ops(st) : o.k = "descr"} : \A r \in Steps(st, op, Devs) : r.obs.names = Names(st.sh)
 \* a new execute replaces the old result completely
 Replace == \A op \in {o \in Ops(st) : o.k = "exec"} : \A r \in Steps(st, op, Devs) :
               r.post.idx = 0 /\ r.post.n = op.n /\ r.post.sh = op.sh /\ r.post.open /\ (op.via = "x" => r.post.asz = st.asz)
